@@ -578,6 +578,44 @@ pub fn run(ctx: &Ctx) {
         "noneinput",
     );
 
+    // long chains (33-60 operators on one spine) with a none somewhere inside and a comparison / membership test on top
+    let long_chains: Vec<EvalCase> = {
+        let mut out = vec![];
+        let facts = pool::map(&[("vn", Value::None), ("vm", pool::map(&[("a", Value::Int(1))]))]);
+        for n in [8usize, 31, 32, 33, 34, 60] {
+            for at in [0usize, n / 2, n - 1] {
+                for inner in ["add", "mult", "sub", "bitor"] {
+                    let leaf = |i: usize| if i == at { Expr::index(Expr::reff("vm"), Index::Map("nokey".into())) } else { Expr::value(1 + (i % 3) as i128) };
+                    let mut e = leaf(0);
+                    for i in 1..n {
+                        e = mk2(inner, e, leaf(i));
+                    }
+                    for top in ["gt", "gte", "lt", "lte", "eq", "neq", "contains"] {
+                        out.push(EvalCase::plain(mk2(top, e.clone(), Expr::value(5)), facts.clone()));
+                        out.push(EvalCase::plain(mk2(top, Expr::value(5), e.clone()), facts.clone()));
+                    }
+                    out.push(EvalCase::plain(mk1("is_none", e.clone()), facts.clone()));
+                    out.push(EvalCase::plain(Expr::add(mk2("gt", e.clone(), Expr::value(5)), Expr::value(1)), facts.clone()));
+                }
+            }
+        }
+        out
+    };
+    ctx.enumerate(
+        "none-inside-long-chains",
+        long_chains.len() as u64,
+        true,
+        |i, acc| {
+            acc.cell("long-chain", true);
+            if i % 211 == 0 {
+                acc.sample("long-chain", || long_chains[i as usize].render().chars().take(200).collect());
+            }
+            check_deep(&long_chains[i as usize])
+        },
+        |i| long_chains[i as usize].to_json(),
+        "deepnone",
+    );
+
     let nsi = struct_input_exprs().len() as u64;
     ctx.enumerate(
         "none-fields-of-a-struct",
